@@ -111,7 +111,7 @@ def polySkip (d : Data) (r : RelationE) (skip : Skip) : Skip :=
   let pp := polyMembers d (tagMap r.tags) r.members skip
   if pp.outer.length = 1 ∧ pp.outerCount = 1 ∧ ringValid (ringOf pp.outer 1) then
     match pp.outerWay with
-    | some ow => if ¬ hasInterestingTags r.tags (some [("type", "true")]) then pp.skip ++ [ow.id] else pp.skip
+    | some ow => if ¬ hasInterestingTags r.tags (some [("type", findTag r.tags "type")]) then pp.skip ++ [ow.id] else pp.skip
     | none => pp.skip
   else pp.skip
 
